@@ -85,7 +85,7 @@ KNOWN_TAGS = (
     "ndarray-list-read",
     "sprhs-order-growth",
     "sprhs-list-extent",
-    "sprhs-negint-npshape",
+    "sprhs-npint",
     "single-row-list",
 )
 
@@ -148,7 +148,7 @@ def dodge_write(X, holder: str, shape, key, rhs, tags) -> None:
 def dodge_read_key(holder: str, shape, key):
     if holder == "T":
         return M.as_subs(shape, key)[0]
-    return dict(f="tuple", k=[dict(l=list(e["a"])) if M.elem_kind(e) == "arr" else e for e in key["k"]])
+    return dict(key, k=[dict(l=list(e["a"])) if M.elem_kind(e) == "arr" else e for e in key["k"]])
 
 
 def _wf_clause(probs) -> str:
@@ -364,6 +364,13 @@ def _elem(draw, n: Optional[int], grow: int, kinds=("int", "neg", "slice", "list
     return dict(l=lst) if kind == "list" else dict(a=lst)
 
 
+def _maybe_np(draw, key):
+    """integer subscripts as numpy.int64 in about one key out of six"""
+    if any(M.is_int(e) for e in key["k"]) and draw(st.integers(0, 5)) == 0:
+        key["np"] = True
+    return key
+
+
 @st.composite
 def _tuple_key(draw, shape, form: str, write: bool, room: float, max_order: int):
     """form: 'full' | 'region'.  room = factor by which the cell count may still grow."""
@@ -373,7 +380,7 @@ def _tuple_key(draw, shape, form: str, write: bool, room: float, max_order: int)
         k = [draw(_elem(n, grow if room >= (n + 2) / n else 0, kinds=("int", "int", "neg"))) for n in shape]
         if write and N < max_order and room >= 2 and draw(st.integers(0, 5)) == 0:
             k.append(draw(st.sampled_from([0, 0, 1])))
-        return dict(f="tuple", k=k)
+        return _maybe_np(draw, dict(f="tuple", k=k))
     k = []
     budget = room
     for n in shape:
@@ -387,7 +394,7 @@ def _tuple_key(draw, shape, form: str, write: bool, room: float, max_order: int)
     if all(M.is_int(e) for e in k):
         m = draw(st.integers(0, N - 1))
         k[m] = draw(_elem(shape[m], 0, kinds=("slice", "list", "arr")))
-    return dict(f="tuple", k=k)
+    return _maybe_np(draw, dict(f="tuple", k=k))
 
 
 @st.composite
@@ -482,7 +489,7 @@ def _rhs(draw, shape, key, vkind: str):
     if choice == "scalar":
         if draw(st.integers(0, 2)) == 0:
             return dict(r="scalar", v=draw(gen.NZ_INT_VALUES), int=True)
-        return dict(r="scalar", v=draw(gen.values(vkind, nonzero=True)), int=False)
+        return dict(r="scalar", v=draw(gen.values(vkind, nonzero=True)), int=False, np=draw(st.booleans()))
     pattern = draw(st.sampled_from(["nonzero", "nonzero", "mixed", "mixed", "zero"]))
     vals = draw(_values(count, vkind, pattern))
     if form == "region":
@@ -582,6 +589,8 @@ def _run_single(ctx, case, holder: str):
     if op["key"]["f"] == "tuple":
         kinds = sorted({M.elem_kind(e) for e in op["key"]["k"]})
         ctx.label("elems-" + "/".join(kinds), f"lists-{M.n_lists(op['key'])}")
+        if op["key"].get("np"):
+            ctx.label("numpy-int-subscripts")
         if any(M.is_int(e) and e < 0 for e in op["key"]["k"]):
             ctx.label("negative-int")
     elif op["key"]["f"] != "subs":
@@ -701,7 +710,7 @@ def _possible_tags(shape, A, op, stored_subs=None, grew=False) -> set:
         out |= tags
         if opn == "write" and grew and k["f"] == "tuple" and r["r"] == "array" and any(
                 M.is_int(e) and e < 0 for e in k["k"]):
-            out.add("sprhs-negint-npshape")
+            out.add("sprhs-npint")
     return out
 
 
